@@ -457,3 +457,32 @@ def rule_unregister_always_pops(ctx, facts, rule):
               "a path returns at bb%s without popping span_lines: the released scope stays on the stack as the thread's local parent" % wit,
               extra="always-pops")
 
+
+
+INNERMOST_OK = re.compile(r"::(last|last_mut|back|back_mut|push|push_back|pop|pop_back|len|is_empty|capacity|with_capacity|new|deref|deref_mut|as_mut_slice|as_slice)$")
+
+
+def rule_span_lines_innermost_only(ctx, facts, rule):
+    """"The innermost local parent": the scope stack is only ever looked at from its top. Every access to
+    LocalSpanStack.span_lines is last / last_mut / push / pop / len / is_empty (or their VecDeque names); iterating, indexing
+    or taking the first line answers with an enclosing scope instead of the current one."""
+    prov = Prov(facts)
+    bad, n = [], 0
+    for g in facts.fns.values():
+        if g.crate != "fastrace" or re.search(r"::tests?::|::test_", g.path):
+            continue
+        for b in g.calls():
+            t = g.term(b)
+            if g.blocks[b]["cleanup"] or not t["args"] or not t.get("arg_tys") or not re.fullmatch(
+                    r"&(mut )?((alloc::vec::Vec|alloc::collections::vec_deque::VecDeque)<fastrace::local::local_span_line::SpanLine>|"
+                    r"\[fastrace::local::local_span_line::SpanLine\])", t["arg_tys"][0]):
+                continue                      # only operations on the container itself (not on the Option<&mut SpanLine> taken from it)
+            src = prov.of_operand(g, t["args"][0])
+            if not any(".span_lines" in o.path for o in src):
+                continue
+            n += 1
+            if not INNERMOST_OK.search(t["callee"]):
+                bad.append((g.path, g.loc(b), t["callee"].rsplit("::", 1)[1]))
+    ctx.check(not bad and n >= 3, rule, STACK.rstrip(":"), "-",
+              "the scope stack is only accessed from its top (last / last_mut / push / pop / len / is_empty)", "%d accesses" % n,
+              "span_lines accessed with %s: an enclosing scope can be taken for the current one" % bad, extra="innermost-only")
